@@ -1459,6 +1459,18 @@ pub fn scan_world(r: &mut Rng, tier: Tier) -> (WorldCfg, OracleCfg, Vec<Fault>) 
             },
         });
     }
+    // a reply that comes too late is a lost reply for the probe it belongs to - and is still in
+    // the receive buffer when the next address is probed
+    if !slaves.is_empty() && r.chance(1, 3) {
+        for _ in 0..r.range(1, 4) {
+            let sl = r.below(slaves.len() as u64) as usize;
+            faults.push(Fault {
+                trig: Trigger::NthTx { n: r.range(0, 600) as u32, class: TxClass::Request },
+                kind: FaultKind::SlaveByz { slave: sl, shape: ByzShape::Late, count: r.range(1, 3) as u8 },
+                delay_us: 0,
+            });
+        }
+    }
     let mut apps = Vec::new();
     match r.below(3) {
         0 => apps.push(AppCfg::LiveList),
